@@ -46,6 +46,7 @@ fn cfg_for(s: &Scn, seed: u64) -> HCfg {
         check_c06: true,
         check_c10: true,
         check_ledger: true,
+            check_presence: false,
     }
 }
 
